@@ -7,6 +7,7 @@ import (
 	"hash/fnv"
 	"math/rand"
 	"os"
+	"runtime"
 	"strings"
 	"sync"
 	"sync/atomic"
@@ -190,4 +191,94 @@ func childConcurrent(c *run.Ctx, cfg childCfg) {
 	c.EndCase(cfg.Start)
 	_ = os.Stderr
 	_ = strings.TrimSpace
+}
+
+// childOutage: the database goes away and comes back. The production registry checks a node at most every 30 s, so
+// the round first lets that interval pass; then the node is down (connections refused, pings fail), the registry is
+// pinged as the watchdog pings it, and read requests arrive — each must be answered (an error is fine). Then the
+// node is back, pinged again, and requests must be answered as before.
+func childOutage(c *run.Ctx, cfg childCfg) {
+	f := &fuzzer{c: c, lane: cfg.Lane, plog: &panicLog{}}
+	f.newSession()
+	f.rd = startReader(f)
+	cl := rdcat.NewClient(f.rd.Server.URL, clientWait)
+	reqs := []string{"loki.labels", "loki.query_range", "prom.series", "tempo.search.tags", "pyro.LabelNames"}
+	for _, n := range reqs {
+		cl.Do(rdcat.ByName(n).Canon)
+	}
+	sb, _ := json.Marshal(map[string]any{"outage": true})
+	c.BeginCase(cfg.Start, openCase{Trigger: "outage", WedgeKey: "outage", Endpoint: "outage", Case: sb})
+	time.Sleep(31 * time.Second)
+	ping := func() string {
+		done := make(chan error, 1)
+		go func() { done <- f.reg.Ping() }()
+		select {
+		case err := <-done:
+			if err != nil {
+				return "error"
+			}
+			return "ok"
+		case <-time.After(10 * time.Second):
+			return "no-return"
+		}
+	}
+	phase := func(name string) bool {
+		for _, n := range reqs {
+			stmts0 := f.sess.LogLen()
+			resp := cl.Do(rdcat.ByName(n).Canon)
+			c.Cover("outage/"+name, fmt.Sprintf("%s answered %dxx", n, resp.Status/100), 1)
+			if resp.Status != 0 && !resp.TimedOut {
+				c.Floor("requests answered around a database outage", 0, 1)
+				continue
+			}
+			// no answer: blocked, spinning, or merely slow?
+			var dumps [3]map[string]run.Goroutine
+			var heaps, allocs [3]uint64
+			for i := range dumps {
+				dumps[i] = qrynActive(run.Census())
+				var ms runtime.MemStats
+				runtime.ReadMemStats(&ms)
+				heaps[i], allocs[i] = ms.HeapAlloc, ms.TotalAlloc
+				if i < 2 {
+					time.Sleep(2 * time.Second)
+				}
+			}
+			for id, g := range dumps[0] {
+				g1, ok1 := dumps[1][id]
+				g2, ok2 := dumps[2][id]
+				if !ok1 || !ok2 || strings.Join(g.QrynFrames(), "<") != strings.Join(g1.QrynFrames(), "<") || strings.Join(g.QrynFrames(), "<") != strings.Join(g2.QrynFrames(), "<") {
+					continue
+				}
+				st := strings.SplitN(g2.State, ",", 2)[0]
+				fr := g.QrynFrames()[0]
+				what := "blocked"
+				if st == "running" || st == "runnable" {
+					// running in the same frames in three dumps over 4 s after a 15 s wait, without a statement to the database
+					// and without allocating: no input-dependent work is left that could still end
+					if f.sess.LogLen() != stmts0 || allocs[2]-allocs[0] > 4<<20 {
+						continue
+					}
+					what = "spinning"
+				}
+				c.Violation("wedged/around-database-outage/"+fr, fmt.Sprintf("%s (%s phase of a database outage): no HTTP answer after %v; a goroutine of the request is %s in %s in three dumps 2 s apart (no statement reached the database, %d bytes allocated meanwhile)",
+					n, name, clientWait, what, fr, allocs[2]-allocs[0]), map[string]any{"case_index": cfg.Start, "outage": true, "goroutine": clip(g2.Raw, 3000)})
+				return false
+			}
+			c.Undecided("request unanswered around a database outage, cause not established")
+			return false
+		}
+		return true
+	}
+	f.sess.Down.Store(true)
+	c.Cover("outage/ping", "node down: "+ping(), 1)
+	if !phase("down") {
+		os.Exit(exitStall)
+	}
+	f.sess.Down.Store(false)
+	c.Cover("outage/ping", "node back: "+ping(), 1)
+	if !phase("back") {
+		os.Exit(exitStall)
+	}
+	c.Case("outage")
+	c.EndCase(cfg.Start)
 }
